@@ -234,6 +234,7 @@ def parse_failures(stderr, em, lines):
                 break
         # --expand-errors: the first failing sub-conjunct is reported in a following note block
         expand_line = None
+        expand_lines = []
         for nb in blocks[bi + 1:bi + 3]:
             if nb[0].startswith('error'):
                 break
@@ -241,6 +242,11 @@ def parse_failures(stderr, em, lines):
                 m2 = re.search(r'-->\s*\S+?:(\d+):(\d+)', '\n'.join(nb))
                 if m2:
                     expand_line = int(m2.group(1))
+                # the note shows the failing sub-expression and the chain of enclosing call sites
+                for ln in nb[1:]:
+                    mm = re.match(r'\s*(\d+)\s*\|', ln)
+                    if mm:
+                        expand_lines.append(int(mm.group(1)))
                 break
         if kind == 'precondition':
             cl = None
@@ -264,8 +270,9 @@ def parse_failures(stderr, em, lines):
         if prim and prim <= len(em.origin):
             fn = em.origin[prim - 1]['fn']
             cand = range(prim, clause_hi + 1)
-            if expand_line and prim <= expand_line <= clause_hi and em.origin[expand_line - 1]['label']:
-                cand = [expand_line]
+            inside = [k for k in expand_lines if prim <= k <= clause_hi and k <= len(em.origin) and em.origin[k - 1]['label']]
+            if inside:
+                cand = sorted(set(inside))
             for k in cand:
                 o = em.origin[k - 1]
                 if o['label']:
